@@ -31,7 +31,7 @@ pub uninterp spec fn count(s: &State) -> int;                // temporary_regist
 #[verifier::external_body] pub struct ValueV { x: usize }
 pub enum Value { Ident(Ident), Other(ValueV) }
 #[verifier::external_body] pub struct ExprV { x: usize }
-pub enum Expr { Value(Value), DotLookup { x: ExprV }, Index { x: ExprV }, BinOp { op: Op, x: ExprV }, Other(ExprV) }
+pub enum Expr { Value(Value), DotLookup { x: ExprV }, Index { x: ExprV }, BinOp { op: Op, x: ExprV }, Nil, Other(ExprV) }
 pub enum Op { Add, Subtract, Multiply, Divide, Modulo, Lt, Gt, Lte, Gte, Eq, Neq, And, Or, Xor, Unwrap, AddAssign, SubAssign, MulAssign, DivAssign, ModAssign, BinaryXor, BinaryOr, BinaryAnd, BitwiseLs, BitwiseRs, Is }
 pub uninterp spec fn op_symbol(o: Op) -> Seq<char>;
 #[verifier::external_body] pub fn op_symbol_vs(o: &Op) -> (r: VString) ensures text_of(&r) == op_symbol(*o), !is_reg_arg(&r) { unimplemented!() }
@@ -106,6 +106,7 @@ def build(repo):
         Rule("R1", "let symbol = op . symbol ( ) ;", "let symbol = op_symbol_vs ( op ) ;", why="Op::symbol text"),
         Rule("R1", "( symbol ) . to_vs ( )", "symbol", why="Op::symbol text"),
         Rule("R1", "lhs_raw . as_ref ( )", "lhs_raw", why="Box<Expr> deref"),
+        Rule("R1", "rhs . as_ref ( )", "rhs", why="Box<Expr> deref"),
         Rule("R8", "unimplemented ! $a", "{ vpanic ( ) ; return Err ( VErr ) }", why="unimplemented!: a panic, unreachable only under the stated precondition on the operand shape"),
         Rule("R8", "unreachable ! $a", "{ vpanic ( ) ; return Err ( VErr ) }", why="unreachable!: a panic, unreachable only under the stated precondition on the operand shape"),
         Rule("R1", "unsafe { $$e }", "{ $$e }", why="unsafe block marker dropped: the callee's contract carries what the caller must guarantee"),
@@ -169,12 +170,12 @@ pub fn compile_depth_binop(lhs_raw: &Expr, op: &Op, rhs: &Expr, state: &mut Stat
 }} // verus!
 fn main() {{}}
 """
-    obls = [Obl("C15.binop.layout", ["C15", "C09"], fn="compile_depth_binop",
+    obls = [Obl("C15.binop.layout", ["C15", "C09", "C12"], fn="compile_depth_binop",
                 desc="compile_depth BinOp arm: left operand's code strictly before the right operand's, each once; &&/|| emit store_skip with the skip landing one past the final bin_op (right operand not evaluated); the register holding the left value is not written by the right operand's code; for all operand code")]
     return gen, obls, log
 
 
-UNITS = [VUnit("c15_binop", ["C15", "C09"], "binary operators: operand order, short-circuit layout, register discipline", build)]
+UNITS = [VUnit("c15_binop", ["C15", "C09", "C12"], "binary operators: operand order, short-circuit layout, register discipline", build)]
 UNITS[0].assumes = ["recursive compile_depth calls (any operand expression) are assumed to satisfy the register frame contract this arm is proved to re-establish (induction hypothesis over the expression tree, not mechanised)",
                     "register allocator abstract: poll hands out the counter value; a register passed by value is released by the callee",
                     "operand shapes for op-assign / ?= as delivered by the parser are preconditions"]
